@@ -593,6 +593,7 @@ func runWeighted(run *core.Run) {
 	if run.Prop == "C04" || run.Prop == "C11" {
 		runWeightedFamilies(run, o)
 	}
+	runWeightedBigFamilies(run, o) // all five properties: verdict, weights, structure and wildcards of large regular models
 	if run.Prop == "C06" {
 		// (d) 16 goroutines build one shared model under the race detector; results compared with the sequential build
 		raceRun(run, "c06", run.N(150, 1500), run.N(1, 4))
@@ -751,6 +752,51 @@ func runWeightedFamilies(run *core.Run, o wgOpts) {
 			checkWeightedModel(run, m, run.Rng("fam", n*10+variant), o)
 			run.Count("family_models", 1)
 		}
+	}
+}
+
+// runWeightedBigFamilies: two shapes whose cost or verdict must not depend on their size.
+//   - the computed ladder: L levels of `a_i: a_(i+1) or b_(i+1)`, `b_i: b_(i+1) or a_(i+1)` ending in a direct
+//     assignment: 2L+2 relations, 2^L rewrite paths. Anything that walks paths instead of nodes does not come back
+//     (the watchdog then ends the run with a violation);
+//   - the long chain `r0: r1, r1: r2 ... rN: [user, user:*]` with N beyond any plausible fixed depth limit: the
+//     verdict and the weights must not depend on where the traversal starts.
+func runWeightedBigFamilies(run *core.Run, o wgOpts) {
+	o.maxOrders = 24
+	o.typePerms, o.opndPerms = 1, 1
+	levels := []int{44}
+	chains := []int{130, 220}
+	if run.Tier == "thorough" {
+		levels = []int{30, 44, 60}
+		chains = []int{101, 130, 160, 220, 400}
+	}
+	for _, L := range levels {
+		td := &openfgav1.TypeDefinition{Type: "o", Relations: map[string]*openfgav1.Userset{}, Metadata: &openfgav1.Metadata{Relations: map[string]*openfgav1.RelationMetadata{}}}
+		for i := 0; i < L; i++ {
+			td.Relations[fmt.Sprintf("a%03d", i)] = gen.Union(gen.Computed(fmt.Sprintf("a%03d", i+1)), gen.Computed(fmt.Sprintf("b%03d", i+1)))
+			td.Relations[fmt.Sprintf("b%03d", i)] = gen.Union(gen.Computed(fmt.Sprintf("b%03d", i+1)), gen.Computed(fmt.Sprintf("a%03d", i+1)))
+		}
+		for _, n := range []string{fmt.Sprintf("a%03d", L), fmt.Sprintf("b%03d", L)} {
+			td.Relations[n] = gen.This()
+			td.Metadata.Relations[n] = &openfgav1.RelationMetadata{DirectlyRelatedUserTypes: []*openfgav1.RelationReference{gen.RefType("user")}}
+		}
+		m := &openfgav1.AuthorizationModel{SchemaVersion: "1.1", TypeDefinitions: []*openfgav1.TypeDefinition{{Type: "user"}, td}}
+		checkWeightedModel(run, m, run.Rng("fam-ladder", L), o)
+		run.Count("family_models", 1)
+		run.Max("computed_ladder_levels", int64(L))
+	}
+	for _, N := range chains {
+		td := &openfgav1.TypeDefinition{Type: "o", Relations: map[string]*openfgav1.Userset{}, Metadata: &openfgav1.Metadata{Relations: map[string]*openfgav1.RelationMetadata{}}}
+		for i := 0; i < N; i++ {
+			td.Relations[fmt.Sprintf("r%03d", i)] = gen.Computed(fmt.Sprintf("r%03d", i+1))
+		}
+		last := fmt.Sprintf("r%03d", N)
+		td.Relations[last] = gen.This()
+		td.Metadata.Relations[last] = &openfgav1.RelationMetadata{DirectlyRelatedUserTypes: []*openfgav1.RelationReference{gen.RefType("user"), gen.RefWild("user")}}
+		m := &openfgav1.AuthorizationModel{SchemaVersion: "1.1", TypeDefinitions: []*openfgav1.TypeDefinition{{Type: "user"}, td}}
+		checkWeightedModel(run, m, run.Rng("fam-chain", N), o)
+		run.Count("family_models", 1)
+		run.Max("computed_chain_length", int64(N))
 	}
 }
 
